@@ -31,6 +31,8 @@ SCENARIOS = {
     "S-BL-all": [[("c0", "CON", "A"), ("c1", "CON", "A"), ("c2", "CON", "B"), ("n3", "NON", "A"), ("c4", "CON", "A")]],
     "S-BL-split": [[("c0", "CON", "A"), ("c1", "CON", "A")], [("c2", "CON", "A"), ("n3", "NON", "A")]],
     "S-BL-three": [[("c0", "CON", "A"), ("c1", "CON", "A"), ("c2", "CON", "A")], [("c3", "CON", "B")]],
+    # server role: the node's own separate CON response to A competes with its client requests to A
+    "S-BL-server": [[("c0", "CON", "A")], "A-requests-slow", [("c1", "CON", "A")]],
 }
 
 
@@ -42,6 +44,8 @@ class Sub:
         self.first_tx = None
         self.mid = None
         self.bytes = None
+        self.token = None
+        self.dropped = False
 
 
 class BacklogScenario(NetScenario):
@@ -58,7 +62,24 @@ class BacklogScenario(NetScenario):
     def build(self, st):
         from ..world import World
         w = st.world = World()
-        st.cli = w.add_context("cli", *CLI)
+        site = None
+        st.resp = None
+        if self.name == "S-BL-server":
+            import asyncio
+            from aiocoap import resource
+
+            class Slow(resource.Resource):
+                async def render_get(self_, request):
+                    await asyncio.sleep(0.5)
+                    # the separate response is submitted now: the model queues it like any other CON to A
+                    st.resp = Sub("resp", "CON", "A", 99)
+                    st.resp.token = bytes(request.token)
+                    st.subs.append(st.resp)
+                    st.queue["A"].append(st.resp)
+                    return Message(payload=b"late")
+            site = resource.Site()
+            site.add_resource(["slow"], Slow())
+        st.cli = w.add_context("cli", *CLI, site=site)
         w.add_peer(RefServer("A", *A))
         w.add_peer(RefServer("B", *B))
         st.subs = []
@@ -67,6 +88,9 @@ class BacklogScenario(NetScenario):
         w.on_emit.append(lambda dg: self.on_wire(st, dg))
         n = 0
         for g in SCENARIOS[self.name]:
+            if g == "A-requests-slow":
+                st.script.append(("A requests /slow", lambda st: st.world.emit(A, CLI, rc.encode((rc.CON, 1, 0x6001, b"\xa5", [(11, b"slow")], b"")))))
+                continue
             subs = []
             for (name, mt, srv) in g:
                 s = Sub(name, mt, srv, n)
@@ -99,11 +123,17 @@ class BacklogScenario(NetScenario):
         if dg.src != CLI:
             return
         d = dg.data
-        if not (1 <= d[1] < 32):
-            return
         m = rc.decode(d, check_formats=False)
-        path = rc.opt(m[4], 11, b"").decode()
-        s = next(x for x in st.subs if x.name == path)
+        if d[1] >= 64 and m[0] == rc.CON:
+            s = next((x for x in st.subs if x.token is not None and x.token == m[3] and x.name == "resp"), None)
+            if s is None:
+                st.violations.append(Violation("unexplained-con-response", "a separate response the handler produced", rc.describe(m), "messagemanager.py", {}, key="resp"))
+                return
+        elif not (1 <= d[1] < 32):
+            return
+        else:
+            path = rc.opt(m[4], 11, b"").decode()
+            s = next(x for x in st.subs if x.name == path)
         if s.first_tx is None:
             s.first_tx, s.mid, s.bytes = dg.t, m[2], d
             if s.mtype == "CON":
@@ -135,6 +165,8 @@ class BacklogScenario(NetScenario):
     def remote_error(self, st, srv, why):
         """A transport error was reported for the remote: everything pending towards it fails now."""
         for s in st.subs:
+            if s.srv == srv and s.obj is None and s.first_tx is None:
+                s.dropped = True        # a held-back response goes down with its remote
             if s.srv == srv and s.obj is not None and not s.obj.response.done():
                 st.violations.append(Violation("error-leaves-request-pending", "every request to the remote fails (%s)" % why,
                                                s.name + " pending", "messagemanager.py:dispatch_error", {}, key=why))
@@ -161,7 +193,7 @@ class BacklogScenario(NetScenario):
         if self.fired(st):
             self.remote_error(st, srv, "sendmsg error")
             return
-        if rst and not s.obj.response.done():
+        if rst and s.obj is not None and not s.obj.response.done():
             st.violations.append(Violation("rst-does-not-fail-request", "failed", "pending", "messagemanager.py:_remove_exchange", {}, key="rst"))
         if st.queue[srv] and st.open[srv] is None:
             st.violations.append(Violation("held-back-message-not-released", st.queue[srv][0].name + " transmitted when the exchange ahead ended",
@@ -198,8 +230,16 @@ class BacklogScenario(NetScenario):
             return
         for srv in ("A", "B"):
             s = st.open[srv]
-            if s is not None and s.obj.response.done() and isinstance(s.obj.response.exception(), error.TimeoutError):
+            if s is not None and s.obj is not None and s.obj.response.done() and isinstance(s.obj.response.exception(), error.TimeoutError):
                 self.remote_error(st, srv, "timeout")
+            elif s is not None and s.obj is None and not any(r.sockaddr[:2] == SRV[srv] for (r, mid) in st.cli.mman._active_exchanges) \
+                    and s.first_tx is not None and st.world.loop.time() - s.first_tx > 40:
+                self.remote_error(st, srv, "timeout")     # the separate response itself ran out of retransmissions
+        # a separate response produced by a handler in this step goes out at once unless an exchange is open
+        r = st.resp
+        if r is not None and r.first_tx is None and not r.dropped and st.open["A"] is None and st.queue["A"] and st.queue["A"][0] is r:
+            st.violations.append(Violation("undelayed-message-not-sent-at-once", "separate response transmitted when produced", "held back",
+                                           "messagemanager.py:send_message", {}, key="resp"))
 
     def on_step(self, st, label):
         mm = st.cli.mman
@@ -221,6 +261,8 @@ class BacklogScenario(NetScenario):
         w = st.world
         if not st.horizon_hit:
             for s in st.subs:
+                if s.obj is None and s.first_tx is None and not s.dropped:
+                    st.violations.append(Violation("message-forgotten", "transmitted or dropped with its remote", s.name + " neither", "messagemanager.py", {}, key="forgotten-resp"))
                 if s.obj is not None and s.first_tx is None and not s.obj.response.done():
                     st.violations.append(Violation("message-forgotten", "transmitted or failed", s.name + " neither", "messagemanager.py", {}, key="forgotten"))
         for msg, e in w.loop_exceptions():
@@ -228,7 +270,7 @@ class BacklogScenario(NetScenario):
                                            core.site_of(e) if e else "loop", {}, key=type(e).__name__ if e else msg[:50]))
 
     def outcome(self, st):
-        return tuple((s.name, s.first_tx is not None, None if s.obj is None or not s.obj.response.done() else
+        return tuple((s.name, s.first_tx is not None, s.dropped if s.obj is None else None if not s.obj.response.done() else
                       ("ok" if s.obj.response.exception() is None else type(s.obj.response.exception()).__name__)) for s in st.subs)
 
 
